@@ -10,8 +10,10 @@ package grpcgcp
 
 import (
 	"bufio"
+	"context"
 	"encoding/hex"
 	"encoding/json"
+	"errors"
 	"fmt"
 	"math/rand"
 	"os"
@@ -23,6 +25,7 @@ import (
 
 	"google.golang.org/grpc"
 	"google.golang.org/grpc/balancer"
+	"google.golang.org/grpc/connectivity"
 	"google.golang.org/grpc/resolver"
 	"google.golang.org/protobuf/encoding/protojson"
 	"google.golang.org/protobuf/proto"
@@ -88,13 +91,16 @@ func cfgPointers(v reflect.Value, out map[uintptr]bool, depth int) {
 func cfgGenValue(rng *rand.Rand) *pb.ApiConfig {
 	c := &pb.ApiConfig{}
 	u32 := func() uint32 {
-		switch rng.Intn(5) {
+		switch rng.Intn(6) {
 		case 0:
 			return 0
 		case 1:
 			return uint32(rng.Intn(5))
 		case 2:
 			return 4294967295
+		case 3:
+			// beyond the largest int32, below the largest uint32
+			return []uint32{2147483647, 2147483648, 3000000000, 4294967294}[rng.Intn(4)]
 		default:
 			return uint32(rng.Intn(1000))
 		}
@@ -256,6 +262,7 @@ func TestVerifConfig(t *testing.T) {
 		h.cc = &vCC{scs: map[int]*vSubConn{}, harness: h}
 		b := balancer.Get(Name).Build(h.cc, balancer.BuildOptions{})
 		gb := b.(*gcpBalancer)
+		h.gb, h.b = gb, b
 		// the first update arrives with addresses, without any (the pool stays empty), or while the
 		// connection factory fails (the pool stays empty too): the configuration is fixed all the same
 		firstAddrs := []resolver.Address{{Addr: "a1"}}
@@ -299,6 +306,23 @@ func TestVerifConfig(t *testing.T) {
 		if gb.unresponsiveDetection {
 			det = 1
 		}
+		// the effective low watermark is at least 1: an idle READY channel takes a call (the configuration is what the
+		// balancer acts on, not only what it stores)
+		acts := 1
+		if len(text)%3 == 0 && len(gb.scRefList) > 0 {
+			sc0 := gb.scRefList[0].subConn
+			b.UpdateSubConnState(sc0, balancer.SubConnState{ConnectivityState: connectivity.Ready})
+			if n := len(h.cc.pubs); n > 0 {
+				res, err := h.cc.pubs[n-1].picker.Pick(balancer.PickInfo{FullMethodName: "/verif/unconfigured", Ctx: context.Background()})
+				if err != nil || res.SubConn != sc0 {
+					acts = 0
+				} else if res.Done != nil {
+					res.Done(balancer.DoneInfo{Err: errors.New("verif: not sent")})
+				}
+			} else {
+				acts = 0
+			}
+		}
 		// a second resolver update with another configuration does not change it
 		b.UpdateClientConnState(balancer.ClientConnState{ResolverState: resolver.State{Addresses: []resolver.Address{{Addr: "a2"}}},
 			BalancerConfig: &GCPBalancerConfig{ApiConfig: &pb.ApiConfig{ChannelPool: &pb.ChannelPoolConfig{MaxSize: 77, MinSize: 3}}}})
@@ -306,8 +330,8 @@ func TestVerifConfig(t *testing.T) {
 		if cfgCanon(gb.cfg.ApiConfig) != eff {
 			second = "changed"
 		}
-		fmt.Fprintf(w, "cfg effective json=%s => %s tbl=%s det=%d mutated=%d aliased=%d second=%s\n", hex.EncodeToString(text), eff,
-			strings.Join(tbl, ","), det, mutated, aliased, second)
+		fmt.Fprintf(w, "cfg effective json=%s => %s tbl=%s det=%d mutated=%d aliased=%d second=%s acts=%d\n", hex.EncodeToString(text), eff,
+			strings.Join(tbl, ","), det, mutated, aliased, second, acts)
 	}
 	// corpus
 	for _, s := range []string{`{}`, `null`, `[]`, `{"channelPool":{}}`, `{"channelPool":null,"method":null}`, `{"method":[]}`, `{"method":[{}]}`,
